@@ -36,7 +36,7 @@ CHECKS = {
     ),
     "C03": dict(
         level="fault_enumeration",
-        text="Seeded simulation of programs inside a real `with Worklist(path)` block on a real scratch file system, with one terminal fault per execution: every kind of rejection aimed at a chosen sub-step, or an exception injected (sys.settrace) at a chosen robotools source line of the terminal operation - every line in the thorough tier. An independent robot interpreter replays the record list after every operation and the file written by the real __exit__. Sampling over programs, enumeration over crash points within a program; evidence, not proof.",
+        text="Seeded simulation of programs inside a real `with Worklist(path)` block on a real scratch file system, with one terminal fault per execution: every kind of rejection aimed at a chosen sub-step, or an exception injected (sys.settrace) at a chosen robotools source line of the terminal operation - every line in the thorough tier (every k-th line for programs so large that full enumeration would re-execute more than 3e6 line events). An independent robot interpreter replays the record list after every operation and the file written by the real __exit__. Sampling over programs, enumeration over crash points within a program; evidence, not proof.",
         note="Trusted: the robot interpreter (verif/sim/robot.py) as the meaning of A/D/R/B; records, per-record 0.005 rounding slack in the free-float regime; CPython's settrace line events as the set of crash points; undecodable records are counted and end the replay clauses for that run (decoding is C01's subject).",
         technique="deterministic simulation + fault injection: seeded programs, aimed rejections, line-level interrupt enumeration, robot replay of records and of the file written by __exit__",
         ref="DESIGN.md section 5 / C03",
